@@ -64,6 +64,8 @@ def _env():
         _ATTRS = ['name', 'marks']          # the first attribute of an object must be a single cell (its anchor)
         _NUM_ID_ATTRS = 0
     rules_a = {k: rules[k] for k in ('id', 'opt', 'ext')}
+    # here the external attribute declares a callable default (a factory: every object gets its own list)
+    rules_a['ext'] = (None, None, {'default_val': list})
     rules_m = {'name': rules['name'], 'marks': rules['marks']}
     _ENV.update(x=xlsread, Obj=Obj, Obj2=Obj2, rules=rules, BaseT=BaseT, DerT=DerT, ObjA=ObjA, ObjM=ObjM, rules_a=rules_a, rules_m=rules_m)
     return _ENV
@@ -118,6 +120,18 @@ def _compare(objs, exp, where, key_n=1):
             return '%s: origin of the ranged attribute %s, expected %s' % (w, o.get_attr_origin('marks'), wr)
         if o.get_attr_origin('id', incl_ws=True) != "'S 1' " + _org(e['id']['org']):
             return '%s: origin with sheet name %r' % (w, o.get_attr_origin('id', incl_ws=True))
+    # the declared default of the ranged attribute is the callable `dict`: every object gets its own value - what the
+    # caller later puts into one object's default must not show in another object
+    dfl = [o for o, e in zip(objs, exp) if o is not None and not e['isnone'] and not e['marks']]
+    if len(dfl) >= 2:
+        dfl[0].marks['probe'] = 1
+        try:
+            for k, o in enumerate(dfl[1:]):
+                if o.marks != {}:
+                    return ('%s: the defaulted ranged attribute of object %d reads %r after the default of the first object '
+                            'was modified by the caller (declared default: dict())' % (where, k + 2, o.marks))
+        finally:
+            del dfl[0].marks['probe']
     return None
 
 
@@ -165,6 +179,9 @@ def _run_case(case):
                 return '%s, data row %d: no object' % (w3, k + 1)
             if (a.id, m.name) != (_conv(ex_['id']['val']), _conv(ex_['name']['val'])):
                 return '%s, data row %d: id/name %r, cells hold %r' % (w3, k + 1, (a.id, m.name), (_conv(ex_['id']['val']), _conv(ex_['name']['val'])))
+            if a.ext != [] or a.get_attr_origin('ext') != '<n/a>':
+                return '%s, data row %d: external attribute with declared default list(): %r / %s' % (w3, k + 1, a.ext, a.get_attr_origin('ext'))
+            a.ext.append('row %d' % (k + 1))        # what the caller does with one object's default is that object's business
             marks = ex_['marks'] if isinstance(ex_['marks'], dict) else dict(enumerate(ex_['marks']))
             wantm = {mm['key']: _conv(mm['val']) for mm in marks.values()}
             if m.marks != wantm:
@@ -173,6 +190,10 @@ def _run_case(case):
                 if m.get_attr_origin('marks', mm['key']) != _org(mm['org']):
                     return '%s, data row %d: origin of marks[%s] %s, expected %s' % (
                         w3, k + 1, mm['key'], m.get_attr_origin('marks', mm['key']), _org(mm['org']))
+        for k, (a, m) in enumerate(pairs):
+            if a is not None and a.ext != ['row %d' % (k + 1)]:
+                return ('%s, data row %d: the external attribute (declared default list()) reads %r after every object got '
+                        'its own row number appended' % (w3, k + 1, a.ext))
     if not case['ladder'] and case['stopOn'] == 'blank all' and key_n == 1:
         # the same table through the TableReader mixin: base class first, then the class derived from it
         try:
